@@ -1,3 +1,3 @@
 #!/bin/sh
 export PATH=/opt/veriftools/go1.26.8/bin:$PATH GOTOOLCHAIN=local GOFLAGS=-mod=mod GOPROXY=off GOSUMDB=off
-cd /tmp/repo_snap && VERIF_REPLAY_PARAMS='' VERIF_REPLAY_UNIT=verif_C19_dfb_OSPFv3 VERIF_REPLAY_INPUTS=/verif/replays/C19/verif_C19_dfb_OSPFv3-3/inputs.json go test -vet=off -count=1 -timeout 30s -overlay /verif/replays/C19/verif_C19_dfb_OSPFv3-3/overlay.json -run '^TestVerifReplay$' -v ./layers
+cd /repo && VERIF_REPLAY_PARAMS='' VERIF_REPLAY_UNIT=verif_C19_dfb_OSPFv3 VERIF_REPLAY_INPUTS=/verif/replays/C19/verif_C19_dfb_OSPFv3-3/inputs.json go test -vet=off -count=1 -timeout 30s -overlay /verif/replays/C19/verif_C19_dfb_OSPFv3-3/overlay.json -run '^TestVerifReplay$' -v ./layers
